@@ -57,6 +57,7 @@ struct SVar {
   size_t cap;
   std::vector<SElem> elems;
   int uid;
+  bool solved = false; // a solve happened since this variable was created
 };
 
 static double cb_apply(int kind, double cap, int n)
@@ -178,6 +179,7 @@ static int run_case(const std::string& text)
   bool selective     = h.value("selective", false);
   bool debug         = h.value("debug", false);
   bool want_fresh    = h.value("fresh", false);
+  bool late_expand   = h.value("late_expand", false);
   xbt_log_control_set(debug ? "ker_lmm.thres:debug" : "ker_lmm.thres:info");
   // reset what the previous case of this process left (in-process server mode)
   for (auto& sv : vars)
@@ -235,12 +237,17 @@ static int run_case(const std::string& text)
         line["skip"] = true;
       } else {
         int c    = op[1].get<int>() % cnsts.size();
-        int v    = op[2].get<int>() % vars.size();
+        int v    = op[2].get<int>() < 0 ? vars.size() - 1 : op[2].get<int>() % vars.size();
         double w = op[3];
         SVar& sv = vars[v];
         auto it  = std::find_if(sv.elems.begin(), sv.elems.end(), [c](SElem const& e) { return e.c == c; });
         if (it == sv.elems.end() && sv.elems.size() >= sv.cap) {
           line["skip"] = true;
+        } else if (sv.solved && not late_expand) {
+          // Precondition of every real caller: an activity declares all the resources it uses when it is created,
+          // before the next solve (see DESIGN.md, C17 triage).
+          line["skip"] = true;
+          line["late"] = true;
         } else {
           sys->expand(cnsts[c].c, sv.v, w);
           if (it == sv.elems.end())
@@ -292,10 +299,17 @@ static int run_case(const std::string& text)
         vars.erase(vars.begin() + v);
       }
     } else if (name == "jump") {
-      sys->visited_counter_ = UINT_MAX - op[1].get<unsigned>();
+      // "a long time passes": the counter only ever grows between two wrap-arounds, so a jump never moves it backwards
+      // (stamps larger than the counter would be states that no execution reaches)
+      if (unsigned target = UINT_MAX - op[1].get<unsigned>(); target > sys->visited_counter_)
+        sys->visited_counter_ = target;
+      else
+        line["skip"] = true;
     } else if (name == "solve") {
       sys->solve();
       solved = true;
+      for (auto& sv : vars)
+        sv.solved = true;
       if (selective) {
         auto* ms = sys->get_modified_action_set();
         json mod = json::array();
